@@ -1076,6 +1076,29 @@ pub fn check_c14(case: &FCase, run: &Run) -> Result<(bool, Vec<String>), Violati
                     _ => {}
                 }
             }
+            // ... and inside the pool as it was when the dispatch reached the factory: resize requests and dispatches
+            // travel through the same mailbox, so the size in force is the last one requested before the dispatch was sent
+            // (a job that arrives while the pool is empty waits in the backlog and is routed when workers appear: not judged)
+            let mut cur = case.workers as usize;
+            let mut size_at: HashMap<u32, usize> = HashMap::new();
+            for (_, e) in ev.iter() {
+                match e {
+                    FEv::Resize { to } => cur = *to,
+                    FEv::DispatchSent { id } => {
+                        if cur > 0 {
+                            size_at.insert(*id, cur);
+                        }
+                    }
+                    FEv::Start { wid, id, .. } => {
+                        if let Some(n) = size_at.get(id) {
+                            if *wid >= *n {
+                                return Err(viol("C14/custom-hash-outside-pool", format!("job {id} was dispatched when the requested pool size was {n}, yet it ran on worker {wid}")));
+                            }
+                        }
+                    }
+                    _ => {}
+                }
+            }
             nontrivial = case.hash_table.iter().any(|h| *h as usize >= case.workers as usize) && !iv.is_empty();
             // whatever the hash returns the job must land on a worker: an unroutable job waits forever
             if run.ends.iter().all(|e| *e == DriveEnd::Done) && run.factory_join.is_none() {
